@@ -9,6 +9,7 @@
      try     : per-try timeout configured (40 ms) besides the global timeout (120 ms)
      hold    : gate point at which one goroutine of the proxy is held ...
      during  : ... while this happens completely:  gtimer | ptimer | upresp | upclose | clientreset | none
+               | hostsdown (every host of the cluster fails its health check while an admitted retry has not chosen its host)
      hold2   : optional second gate (a worker gate) for three-party overlaps: a timer callback is held at `hold`,
                `during` happens, the worker runs until `hold2`, then the timer callback is released and runs to
                completion, then the worker is released *)
@@ -21,7 +22,7 @@ WorkerGates == {"ds.loop.top#2", "ds.loop.top#3", "ds.retry.begin", "ds.retry.po
                 \* "point#n" = the n-th arrival at the point (the task loop passes its top once per phase re-entry)
 TimerGates  == {"ds.gtimer.fire", "ds.gtimer.cas", "ds.ptimer.fire", "ds.ptimer.cas"}
 UpGates     == {"us.recv.guard", "us.recv.cas", "us.reset"}
-Durings     == {"gtimer", "ptimer", "upresp", "upclose", "clientreset"}
+Durings     == {"gtimer", "ptimer", "upresp", "upclose", "clientreset", "hostsdown"}
 
 Scripts == { <<"ok">>, <<"s503">>, <<"close">>, <<"hang">>, <<"gate">>, <<"gateclose">>,
              <<"close", "ok">>, <<"s503", "ok">>, <<"hang", "ok">>, <<"close", "gate">>, <<"s503", "gate">>,
@@ -38,6 +39,7 @@ Feasible(c) ==
   /\ c.during = "upresp" => Has(c.script, "gate")
   /\ c.during = "upclose" => Has(c.script, "gateclose")
   /\ c.during = "ptimer" => c.try
+  /\ c.during = "hostsdown" => c.hold \in {"ds.retry.begin", "ds.upreset.retry"} /\ c.hold2 = "none"
   /\ c.hold \in {"ds.ptimer.fire", "ds.ptimer.cas"} => c.try
   /\ c.hold \in {"ds.gtimer.fire", "ds.gtimer.cas"} => c.during # "gtimer"
   /\ c.hold \in {"ds.ptimer.fire", "ds.ptimer.cas"} => c.during # "ptimer"
